@@ -14,6 +14,9 @@ impl Prop for C06 {
     fn fuzz_target(&self) -> Option<&'static str> {
         Some("fz_choices")
     }
+    fn fuzz_runs(&self) -> u64 {
+        40000
+    }
     fn stream_len(&self, _tier: Tier) -> usize {
         600
     }
